@@ -76,7 +76,9 @@ Definition tstep (p : pc) (e : event) : option pc :=
   | PWLoad => if ev_is e DV_LOAD MO_PLAIN OFF_VALUE then Some (PWUndo (s64 (ea e))) else None
   | PWUndo orig =>
       if orig <? 0 then
-        if ev_is e DV_CASW MO_RELAXED OFF_VALUE && (s64 (eb e) =? orig + 1)
+        (* cmpxchgvw(orig -> orig + 1): on success the hook reports the expected value as the one observed *)
+        if ev_is e DV_CASW MO_RELAXED OFF_VALUE && (s64 (eb e) =? orig + 1) &&
+           (negb (eok e =? 1) || (s64 (ea e) =? orig))
         then Some (if eok e =? 1 then PWRetT else PWUndo (s64 (ea e))) else None
       else (* "Another thread called semaphore_signal(). Drain the wakeup." falls into _dispatch_sema4_wait *)
         if ev_is e DV_SEM_WAIT 0 OFF_SEMA then Some PWBlocked else None
